@@ -227,6 +227,44 @@ class AMapView(object):
         return "%s(%r)" % (self.which, self.m)
 
 
+class ACtxMgr(object):
+    """the result of calling a @contextmanager generator function of the repo"""
+
+    def __init__(self, fi, args, kwargs):
+        self.fi, self.args, self.kwargs = fi, args, kwargs
+
+
+def _is_generator(fn: ast.FunctionDef) -> bool:
+    stack = list(fn.body)
+    while stack:
+        n = stack.pop()
+        if isinstance(n, (ast.FunctionDef, ast.Lambda, ast.ClassDef)):
+            continue
+        if isinstance(n, (ast.Yield, ast.YieldFrom)):
+            return True
+        stack.extend(ast.iter_child_nodes(n))
+    return False
+
+
+def _gen_collect(I, lst, v):
+    lst.items.append(v)
+    if lst.depth < I.loop_depth:
+        lst.generic = True
+    return None
+
+
+class AScan(object):
+    """A lazy scan (generator) over an ascending range, represented by its
+    generic element: `next(scan, default)` is the element of the first
+    position that yields one."""
+
+    def __init__(self, items):
+        self.items = list(items)
+
+    def __repr__(self):
+        return "scan%r" % (self.items,)
+
+
 class ARange(object):
     def __init__(self, lo, hi, desc=False):
         self.lo, self.hi, self.desc = lo, hi, desc
@@ -655,12 +693,15 @@ class Interp(object):
 
     # -- calls into the repo ------------------------------------------------
 
-    def call_function(self, fi: FuncInfo, args: List[object], kwargs: Dict[str, object], node=None):
+    def call_function(self, fi: FuncInfo, args: List[object], kwargs: Dict[str, object], node=None, on_yield=None):
         hook = self.hooks.get(fi.qualname)
         if hook is not None:
             r = hook(self, fi, args, kwargs)
             if r is not NotImplemented:
                 return r
+        is_gen = _is_generator(fi.node)
+        if is_gen and on_yield is None and "contextmanager" in fi.decorators:
+            return ACtxMgr(fi, list(args), dict(kwargs))
         if self.depth >= MAX_INLINE_DEPTH:
             raise AnalysisError("inlining depth %d exceeded at %s" % (MAX_INLINE_DEPTH, fi.qualname))
         fn = fi.node
@@ -695,6 +736,8 @@ class Interp(object):
         if kwargs:
             raise AnalysisError("unexpected keyword(s) %s calling %s" % (sorted(kwargs), fi.qualname))
         frame = Frame(self, fi, env)
+        yielded = AList([], self.loop_depth, origin="yield:%s" % fi.name)
+        frame.on_yield = on_yield if on_yield is not None else (lambda v, _y=yielded: _gen_collect(self, _y, v))
         for k, v in list(env.items()):
             if isinstance(v, tuple) and len(v) == 2 and v[0] == "default":
                 env[k] = frame.expr(v[1])
@@ -706,8 +749,8 @@ class Interp(object):
             try:
                 frame.block(fn.body)
             except ReturnSig as r:
-                return r.value
-            return None
+                return yielded if (is_gen and on_yield is None) else r.value
+            return yielded if (is_gen and on_yield is None) else None
         finally:
             self.cur_module = saved
             self.depth -= 1
@@ -844,11 +887,66 @@ class Frame(object):
                 self.unsupported(st, "del target")
             return
         if isinstance(st, ast.With):
-            # context managers used by the repo only set warning filters
-            for item in st.items:
-                self.expr(item.context_expr)
-            return self.block(st.body)
+            return self.with_stmt(st, 0)
         self.unsupported(st, "statement")
+
+    def with_stmt(self, st: ast.With, k: int):
+        """`with a as x, b as y: body` -- library context managers are opaque
+        values bound to their target; a repo function decorated with
+        contextlib.contextmanager is run around the body (its code up to the
+        yield, the body, then the rest, exceptions of the body arriving at the
+        yield)."""
+        I = self.I
+        if k == len(st.items):
+            return self.block(st.body)
+        item = st.items[k]
+        ctx = self.expr(item.context_expr)
+        if isinstance(ctx, ACtxMgr):
+            pending = []
+
+            def on_yield(value):
+                if item.optional_vars is not None:
+                    self.assign(item.optional_vars, value)
+                try:
+                    self.with_stmt(st, k + 1)
+                except (ReturnSig, LoopContinue, LoopBreak, StepDone) as sig:
+                    pending.append(sig)  # leaves the with block: the manager's exit code still runs
+                return None
+
+            I.call_function(ctx.fi, ctx.args, ctx.kwargs, st, on_yield=on_yield)
+            if pending:
+                raise pending[0]
+            return
+        if item.optional_vars is not None:
+            self.assign(item.optional_vars, ctx if ctx is not None else Term("context", Term("L%d" % st.lineno)))
+        return self.with_stmt(st, k + 1)
+
+    def e_Yield(self, e):
+        v = self.expr(e.value) if e.value is not None else None
+        cb = getattr(self, "on_yield", None)
+        if cb is None:
+            self.unsupported(e, "yield outside a generator frame")
+        return cb(v)
+
+    def e_YieldFrom(self, e):
+        v = self.expr(e.value)
+        cb = getattr(self, "on_yield", None)
+        if cb is None:
+            self.unsupported(e, "yield from outside a generator frame")
+        if isinstance(v, AList):
+            for x in v.items:
+                r = cb(x)
+            if v.generic:
+                # mark what was collected as generic
+                self.I.path.effects.append(("yield-generic", v))
+            return None
+        if isinstance(v, (list, tuple)):
+            for x in v:
+                cb(x)
+            return None
+        if isinstance(v, Term):
+            return cb(Term("each", v))
+        self.unsupported(e, "yield from %r" % (v,))
 
     def as_exc(self, v, node) -> AExc:
         if isinstance(v, AExc):
@@ -1052,7 +1150,9 @@ class Frame(object):
             except LoopContinue:
                 pass
             except LoopBreak:
-                self.unsupported(st, "break in the walk loop")
+                # the loop is left from inside its body: the walk has ended
+                I.path.choices.append(("loop-break", True))
+                return
             raise StepDone(dict(self.env))
         self.block(st.orelse)
 
@@ -1179,7 +1279,7 @@ class Frame(object):
                 self.unsupported(node, "module attribute")
             return self.from_binding(r, node)
         if isinstance(base, LibRef):
-            if base.dotted == "six" and a == "MAXSIZE":
+            if (base.dotted == "six" and a == "MAXSIZE") or (base.dotted == "sys" and a == "maxsize"):
                 return Aff.sym("MAXSIZE")
             return LibRef(base.dotted + "." + a)
         if isinstance(base, AObj):
@@ -1220,8 +1320,12 @@ class Frame(object):
         if isinstance(base, ARec) and base.circular and a.startswith("__") is False:
             ci = I.p.get_class("moclo.record.CircularRecord")
             raw = ci.attrs.get(a)
-            if isinstance(raw, FuncInfo) and raw.kind == "method" and I.hooks.get("inline_record_methods"):
+            if isinstance(raw, FuncInfo) and raw.kind == "method" and (I.hooks.get("inline_record_methods") or a.startswith("_")):
                 return BoundMethod("repo", raw, a, extra=[base])
+            if isinstance(raw, FuncInfo) and raw.kind == "staticmethod":
+                return BoundMethod("repo", raw, a, extra=[])
+            if isinstance(raw, FuncInfo) and raw.kind == "classmethod":
+                return BoundMethod("repo", raw, a, extra=[ci])
         return lib_getattr(self, base, a, node)
 
     def e_Subscript(self, e):
@@ -1559,8 +1663,26 @@ class Frame(object):
         it = self.expr(g.iter)
         if isinstance(it, AFeatList):
             it = it.rec.attrs.get("feature_coll") or Term("features", it.rec.ident)
+        if isinstance(it, AList) and it.generic:
+            # one image per representative element, still a generic list
+            outl = AList([], I.loop_depth, origin=it.uid)
+            outl.generic, outl.min_len = True, it.min_len
+            I.loop_depth += 1
+            try:
+                for x in it.items:
+                    sub = Frame(I, self.fi, dict(self.env), module=self.m)
+                    sub.assign(g.target, x)
+                    if all(I.truth(sub.expr(c), c) for c in g.ifs):
+                        outl.items.append(sub.expr(e.elt))
+                    else:
+                        outl.min_len = 0
+            finally:
+                I.loop_depth -= 1
+            return outl
         if isinstance(it, AList) and not it.generic:
             it = list(it.items)
+        if isinstance(it, str):
+            it = list(it)
         if isinstance(it, (list, tuple)):
             out = []
             for x in it:
@@ -1569,16 +1691,48 @@ class Frame(object):
                 if all(I.truth(sub.expr(c), c) for c in g.ifs):
                     out.append(sub.expr(e.elt))
             return AList(out, I.loop_depth)
+        if isinstance(it, ARange):
+            I.path.effects.append(("loop", "range-desc" if it.desc else "range", it.lo, it.hi))
+            if not I.ge0(Aff.of(it.hi) - Aff.of(it.lo) - 1):
+                return AScan([])
+            i = Aff.sym("i")
+            I.path.cons.add(i - Aff.of(it.lo))
+            I.path.cons.add(Aff.of(it.hi) - i - 1)
+            sub = Frame(I, self.fi, dict(self.env), module=self.m)
+            sub.assign(g.target, i)
+            if not all(I.truth(sub.expr(c), c) for c in g.ifs):
+                return AScan([])
+            return AScan([sub.expr(e.elt)])
+        if isinstance(it, AScan):
+            # filtering / mapping a lazy scan keeps "the first element for which ..." semantics
+            out = []
+            for x in it.items:
+                sub = Frame(I, self.fi, dict(self.env), module=self.m)
+                sub.assign(g.target, x)
+                if all(I.truth(sub.expr(c), c) for c in g.ifs):
+                    out.append(sub.expr(e.elt))
+            return AScan(out)
         if isinstance(it, ACollection):
             elem = it.make_elem()
             sub = Frame(I, self.fi, dict(self.env), module=self.m)
             sub.assign(g.target, elem)
             conds = [sub.expr(c) for c in g.ifs]
-            val = sub.expr(e.elt)
-            t = Term("map", Term(it.name), _t(val), Term("over", _t(elem)))
-            if conds:
-                t = Term("filter", t, *[_t(c) for c in conds])
-            return t
+            I.loop_depth += 1
+            try:
+                val = sub.expr(e.elt)
+            finally:
+                I.loop_depth -= 1
+            if isinstance(val, (Term, str, int)) or val is None:
+                t = Term("map", Term(it.name), _t(val), Term("over", _t(elem)))
+                if conds:
+                    t = Term("filter", t, *[_t(c) for c in conds])
+                return t
+            # one image per element of the source collection
+            out = AList([val], I.loop_depth, origin="map:%s" % it.name)
+            out.generic = True
+            out.source = it.name
+            out.filtered = bool(conds)
+            return out
         if isinstance(it, Term):
             elem = I.new_term("elem")
             sub = Frame(I, self.fi, dict(self.env), module=self.m)
@@ -2116,6 +2270,12 @@ def lib_call(fr: Frame, dotted: str, args, kwargs, node):
         return I.new_term("set")
     if dotted in ("builtins.sorted", "builtins.set", "builtins.frozenset", "builtins.tuple") and len(args) >= 1:
         return Term(short, _t(args[0]))
+    if dotted == "builtins.next" and args and isinstance(args[0], AScan):
+        if args[0].items:
+            return args[0].items[0]
+        if len(args) > 1:
+            return args[1]
+        raise RaiseSig(AExc("StopIteration", [], {}))
     if dotted == "builtins.next" and args and isinstance(args[0], AList) and not args[0].generic:
         if args[0].items:
             return args[0].items[0]
@@ -2124,6 +2284,19 @@ def lib_call(fr: Frame, dotted: str, args, kwargs, node):
         raise RaiseSig(AExc("StopIteration", [], {}))
     if dotted == "builtins.iter" and len(args) == 1 and isinstance(args[0], (AList, ACollection)):
         return args[0]
+    if dotted == "itertools.chain":
+        items, generic = [], False
+        for a in args:
+            if isinstance(a, AList):
+                items.extend(a.items)
+                generic = generic or a.generic
+            elif isinstance(a, (list, tuple, str)):
+                items.extend(list(a))
+            else:
+                fr.unsupported(node, "itertools.chain of %r" % (a,))
+        out = AList(items, I.loop_depth)
+        out.generic = generic
+        return out
     if dotted == "builtins.enumerate":
         return Term("enumerate", _t(args[0]))
     if dotted == "builtins.dict":
